@@ -566,3 +566,168 @@ Proof.
     exists q, n. repeat split; try assumption. intro H. rewrite (H1 H). lia.
   - exists GetROSpecs, O. repeat split; cbn; lia.
 Qed.
+
+(* ------------------------------------------------------------------ commands in progress at the same time *)
+From Coq Require Import PeanoNat.
+Lemma set_lane_same : forall ls i l, set_lane ls i l i = l.
+Proof. intros. unfold set_lane. rewrite Nat.eqb_refl. reflexivity. Qed.
+
+Lemma set_lane_other : forall ls i l k, k <> i -> set_lane ls i l k = ls k.
+Proof. intros ls i l k H. unfold set_lane. destruct (Nat.eqb_spec k i); [contradiction|reflexivity]. Qed.
+
+Lemma proj_wire_snoc : forall i w k e,
+  proj_wire i (w ++ [(k, e)]) = proj_wire i w ++ (if Nat.eqb k i then [e] else []).
+Proof.
+  intros. unfold proj_wire. rewrite filter_app, map_app. cbn [filter fst].
+  destruct (Nat.eqb k i); reflexivity.
+Qed.
+
+(* what a caller has still to put on the wire / to report, given where it stands *)
+Definition outstanding (b : bool) (l : lane) : list (N * request) :=
+  match l_todo l with
+  | [] => []
+  | j :: t =>
+      match l_phase l with
+      | Sending rest _ => map (pair (j_dev j)) rest
+      | _ => job_reqs b j
+      end ++ all_reqs b t
+  end.
+Definition out_results (b : bool) (l : lane) : list bool :=
+  match l_todo l with
+  | [] => []
+  | j :: t =>
+      match l_phase l with
+      | Sending _ f => f
+      | _ => failed (run b (j_cmd j))
+      end :: all_results b t
+  end.
+
+Definition lane_inv (b : bool) (orig : list job) (sent_so_far : list (N * request)) (l : lane) : Prop :=
+  l_phase l <> Encoded /\
+  sent_so_far ++ outstanding b l = all_reqs b orig /\
+  l_results l ++ out_results b l = all_results b orig.
+
+Definition conc_inv (b : bool) (lanes : list (list job)) (st : cstate) : Prop :=
+  forall i, lane_inv b (nth i lanes []) (proj_wire i (c_wire st)) (c_lanes st i).
+
+Lemma conc_inv_init : forall b lanes, conc_inv b lanes (conc_init lanes).
+Proof.
+  intros b lanes i. unfold conc_init, lane_inv, outstanding, out_results, proj_wire.
+  cbn [c_lanes c_wire l_todo l_phase l_results filter map app].
+  split; [discriminate|].
+  destruct (nth i lanes []) as [|j t]; split; reflexivity.
+Qed.
+
+Lemma conc_inv_step : forall b lanes k st,
+  conc_inv b lanes st -> conc_inv b lanes (conc_step Private b k st).
+Proof.
+  intros b lanes k st Hinv i.
+  pose proof (Hinv i) as Hi. pose proof (Hinv k) as Hk.
+  unfold conc_step.
+  destruct (l_todo (c_lanes st k)) as [|j t] eqn:Et; [exact Hi|].
+  destruct Hk as (Hne & Hq & Hr).
+  unfold outstanding in Hq. unfold out_results in Hr. rewrite Et in Hq, Hr.
+  destruct (l_phase (c_lanes st k)) as [| |rest f] eqn:Ep; [|contradiction|].
+  - (* Idle -> translated *)
+    cbn [c_lanes c_wire].
+    destruct (Nat.eq_dec i k) as [->|Hik].
+    + rewrite set_lane_same. unfold lane_inv, outstanding, out_results, translated.
+      cbn [l_todo l_phase l_results]. split; [discriminate|]. split; assumption.
+    + rewrite set_lane_other by assumption. exact Hi.
+  - destruct rest as [|q qs].
+    + (* the command returns *)
+      cbn [c_lanes c_wire].
+      destruct (Nat.eq_dec i k) as [->|Hik].
+      * rewrite set_lane_same. unfold lane_inv, outstanding, out_results.
+        cbn [l_todo l_phase l_results]. split; [discriminate|].
+        cbn [map app] in Hq. split.
+        -- rewrite <- Hq. destruct t; reflexivity.
+        -- rewrite <- Hr, <- app_assoc. cbn [app]. destruct t; reflexivity.
+      * rewrite set_lane_other by assumption. exact Hi.
+    + (* one request goes out *)
+      cbn [c_lanes c_wire]. rewrite proj_wire_snoc.
+      destruct (Nat.eq_dec i k) as [->|Hik].
+      * rewrite set_lane_same, Nat.eqb_refl. unfold lane_inv, outstanding, out_results.
+        cbn [l_todo l_phase l_results]. split; [discriminate|]. split.
+        -- rewrite <- Hq, <- app_assoc. reflexivity.
+        -- exact Hr.
+      * rewrite set_lane_other by assumption.
+        destruct (Nat.eqb_spec k i) as [E|_]; [symmetry in E; contradiction|].
+        rewrite app_nil_r. exact Hi.
+Qed.
+
+Lemma conc_inv_exec : forall b lanes sched st,
+  conc_inv b lanes st -> conc_inv b lanes (conc_exec Private b sched st).
+Proof.
+  intros b lanes sched. induction sched as [|k s IH]; intros st H; [exact H|].
+  cbn [conc_exec]. apply IH, conc_inv_step, H.
+Qed.
+
+(* Whatever else is in progress and however the steps interleave: what caller i has put on the
+   wire so far and the verdicts it has got are an initial part of what its commands give ONE AT
+   A TIME — each request is [run] of that command alone (device from the command, payload from
+   its own parameters). *)
+Lemma conc_request_function_of_command_alone : forall b lanes sched i,
+  let st := conc_exec Private b sched (conc_init lanes) in
+  exists more_q more_r,
+    all_reqs b (nth i lanes []) = proj_wire i (c_wire st) ++ more_q /\
+    all_results b (nth i lanes []) = l_results (c_lanes st i) ++ more_r.
+Proof.
+  intros b lanes sched i st.
+  destruct (conc_inv_exec b lanes sched _ (conc_inv_init b lanes) i) as (_ & Hq & Hr).
+  eexists. eexists. split; symmetry; eassumption.
+Qed.
+
+(* ... and once a caller's commands have all returned: exactly that, nothing lost, nothing repeated *)
+Lemma conc_finished_exact : forall b lanes sched i,
+  let st := conc_exec Private b sched (conc_init lanes) in
+  lane_finished (c_lanes st i) = true ->
+  proj_wire i (c_wire st) = all_reqs b (nth i lanes []) /\
+  l_results (c_lanes st i) = all_results b (nth i lanes []).
+Proof.
+  intros b lanes sched i st Hf.
+  destruct (conc_inv_exec b lanes sched _ (conc_inv_init b lanes) i) as (_ & Hq & Hr).
+  fold st in Hq, Hr. unfold outstanding in Hq. unfold out_results in Hr. unfold lane_finished in Hf.
+  destruct (l_todo (c_lanes st i)); [|discriminate].
+  rewrite app_nil_r in Hq, Hr. split; assumption.
+Qed.
+
+(* every entry of the wire belongs to a caller's command: nothing arrives that no command asked for *)
+Lemma conc_wire_attributed : forall b lanes sched i d q,
+  In (i, (d, q)) (c_wire (conc_exec Private b sched (conc_init lanes))) ->
+  exists j, In j (nth i lanes []) /\ d = j_dev j /\ In q (sent (run b (j_cmd j))).
+Proof.
+  intros b lanes sched i d q Hin.
+  destruct (conc_request_function_of_command_alone b lanes sched i) as (mq & _ & Hq & _).
+  assert (Hp : In (d, q) (all_reqs b (nth i lanes []))).
+  { rewrite Hq. apply in_or_app. left. unfold proj_wire.
+    apply (in_map snd) in Hin as Hin'. cbn [snd] in Hin'.
+    change (d, q) with (snd (i, (d, q))). apply in_map. apply filter_In. split; [exact Hin|].
+    cbn [fst]. apply Nat.eqb_refl. }
+  unfold all_reqs in Hp. apply in_flat_map in Hp. destruct Hp as (j & Hj & Hdq).
+  unfold job_reqs in Hdq. apply in_map_iff in Hdq. destruct Hdq as (q' & E & Hq').
+  injection E as <- <-. exists j. repeat split; assumption.
+Qed.
+
+(* two callers adding an ROSpec each *)
+Definition conc_ro_job (d doc : N) : job :=
+  mkJob d (CWrite [mkReq "ROSpec" TObject AMissing AMissing]
+                  [mkParam "ROSpec" TObject (VDoc None (Some doc) None)]).
+Definition conc_two_lanes : list (list job) := [[conc_ro_job 0 7]; [conc_ro_job 0 9]].
+Definition conc_sched_interleaved : list nat := [0; 1; 0; 1; 0; 1; 0; 1]%nat.
+
+(* the Shared mode does not have the property: with the two documents going through one slot,
+   caller 0's AddROSpec carries caller 1's document *)
+Lemma shared_scratch_refuted :
+  let st := conc_exec Shared true conc_sched_interleaved (conc_init conc_two_lanes) in
+  conc_finished 2 st = true /\
+  all_reqs true (nth 0 conc_two_lanes []) = [(0, AddROSpec 7)] /\
+  proj_wire 0 (c_wire st) = [(0, AddROSpec 9)].
+Proof. vm_compute. repeat split; reflexivity. Qed.
+
+Lemma private_example :
+  let st := conc_exec Private true conc_sched_interleaved (conc_init conc_two_lanes) in
+  conc_finished 2 st = true /\
+  c_wire st = [(0%nat, (0, AddROSpec 7)); (1%nat, (0, AddROSpec 9))] /\
+  l_results (c_lanes st 0) = [false] /\ l_results (c_lanes st 1) = [false].
+Proof. vm_compute. repeat split; reflexivity. Qed.
